@@ -1,12 +1,152 @@
 /- Driver operations of property C06 (ops are named "c06.<name>"). Core + Lean.Data.Json only. -/
 import Reamber.Util.Json
+import Reamber.Model.Qua
+import Reamber.Spec.Qua
 
 open Lean Reamber.J
 
 namespace Reamber.C06
 
-def handle (op : String) (_j : Json) : Except String Json :=
+open Reamber.Qua
+
+/-! wire format (harness/props/c06.py):
+  YV    : {"t":"nan"} | {"t":"bool","v":b} | {"t":"int","v":n} | {"t":"flt","v":[n,d]} | {"t":"str","v":s}
+          | {"t":"ks","v":[[sample,volume]…]} | {"t":"strs","v":[s…]}
+  Rec   : [[key, YV]…]
+  Doc   : {"meta":Rec, "ho":null|[Rec…], "tp":…, "sv":…}
+  Chart : {"meta":Rec, "hits":[[off,col,ks]…], "holds":[[off,col,len,ks]…], "bpms":[[off,bpm,met]…], "svs":[[off,mult]…]}
+          ks = null (NaN) | [[sample,volume]…] -/
+
+def ksOfJson (j : Json) : Except String KS :=
+  match j with
+  | Json.arr #[a, b] => do .ok ⟨← intOf? a, ← intOf? b⟩
+  | _ => .error s!"keysound expected [sample, volume]: {j}"
+
+def ksToJson (k : KS) : Json := Json.arr #[intToJson k.sample, intToJson k.volume]
+
+def yvOfJson (j : Json) : Except String YV := do
+  let t ← getStr j "t"
+  match t with
+  | "nan" => .ok .nan
+  | "bool" => do .ok (.bool (← getBool j "v"))
+  | "int" => do .ok (.int (← getInt j "v"))
+  | "flt" => do .ok (.flt (← getRat j "v"))
+  | "str" => do .ok (.str (← getStr j "v"))
+  | "ks" => do .ok (.ks (← getArr ksOfJson j "v"))
+  | "strs" => do .ok (.strs (← getArr strOf? j "v"))
+  | _ => .error s!"unknown value tag {t}"
+
+def yvToJson : YV → Json
+  | .nan => obj [("t", Json.str "nan")]
+  | .bool b => obj [("t", Json.str "bool"), ("v", Json.bool b)]
+  | .int i => obj [("t", Json.str "int"), ("v", intToJson i)]
+  | .flt q => obj [("t", Json.str "flt"), ("v", ratToJson q)]
+  | .str s => obj [("t", Json.str "str"), ("v", Json.str s)]
+  | .ks l => obj [("t", Json.str "ks"), ("v", listToJson ksToJson l)]
+  | .strs l => obj [("t", Json.str "strs"), ("v", listToJson Json.str l)]
+
+def recOfJson (j : Json) : Except String Rec :=
+  arrOf? (fun e => match e with
+    | Json.arr #[k, v] => do .ok (← strOf? k, ← yvOfJson v)
+    | _ => .error s!"entry expected [key, value]: {e}") j
+
+def recToJson (r : Rec) : Json := listToJson (fun kv => Json.arr #[Json.str kv.1, yvToJson kv.2]) r
+
+def docOfJson (j : Json) : Except String Doc := do
+  let m ← recOfJson (← field j "meta")
+  let ho ← optOf? (arrOf? recOfJson) (fieldD j "ho" Json.null)
+  let tp ← optOf? (arrOf? recOfJson) (fieldD j "tp" Json.null)
+  let sv ← optOf? (arrOf? recOfJson) (fieldD j "sv" Json.null)
+  .ok ⟨m, ho, tp, sv⟩
+
+def docToJson (d : Doc) : Json :=
+  obj [("meta", recToJson d.info), ("ho", optToJson (listToJson recToJson) d.hitObjects),
+       ("tp", optToJson (listToJson recToJson) d.timingPoints), ("sv", optToJson (listToJson recToJson) d.sliderVelocities)]
+
+def cellOfJson (j : Json) : Except String KsCell :=
+  match j with
+  | Json.null => .ok .nan
+  | _ => do .ok (.list (← arrOf? ksOfJson j))
+
+def cellToJson : KsCell → Json
+  | .nan => Json.null
+  | .list l => listToJson ksToJson l
+
+def hitOfJson (j : Json) : Except String Hit :=
+  match j with
+  | Json.arr #[o, c, k] => do .ok ⟨← ratOf? o, ← intOf? c, ← cellOfJson k⟩
+  | _ => .error s!"hit expected [offset, column, keysounds]: {j}"
+
+def holdOfJson (j : Json) : Except String Hold :=
+  match j with
+  | Json.arr #[o, c, l, k] => do .ok ⟨← ratOf? o, ← intOf? c, ← ratOf? l, ← cellOfJson k⟩
+  | _ => .error s!"hold expected [offset, column, length, keysounds]: {j}"
+
+def bpmOfJson (j : Json) : Except String Bpm :=
+  match j with
+  | Json.arr #[o, b, m] => do .ok ⟨← ratOf? o, ← ratOf? b, ← ratOf? m⟩
+  | _ => .error s!"bpm expected [offset, bpm, metronome]: {j}"
+
+def svOfJson (j : Json) : Except String Sv :=
+  match j with
+  | Json.arr #[o, m] => do .ok ⟨← ratOf? o, ← ratOf? m⟩
+  | _ => .error s!"sv expected [offset, multiplier]: {j}"
+
+def chartOfJson (j : Json) : Except String Chart := do
+  .ok ⟨← recOfJson (← field j "meta"), ← getArr hitOfJson j "hits", ← getArr holdOfJson j "holds",
+       ← getArr bpmOfJson j "bpms", ← getArr svOfJson j "svs"⟩
+
+def chartToJson (c : Chart) : Json :=
+  obj [("meta", recToJson c.info),
+       ("hits", listToJson (fun h => Json.arr #[ratToJson h.offset, intToJson h.column, cellToJson h.keysounds]) c.hits),
+       ("holds", listToJson (fun h => Json.arr #[ratToJson h.offset, intToJson h.column, ratToJson h.length,
+                                                  cellToJson h.keysounds]) c.holds),
+       ("bpms", listToJson (fun b => Json.arr #[ratToJson b.offset, ratToJson b.bpm, ratToJson b.metronome]) c.bpms),
+       ("svs", listToJson (fun s => Json.arr #[ratToJson s.offset, ratToJson s.multiplier]) c.svs)]
+
+def resToJson {α} (f : α → Json) : Except Err α → Json
+  | .ok v => okJson (f v)
+  | .error e => errJson e.toString
+
+def handle (op : String) (j : Json) : Except String Json := do
   match op with
+  -- model
+  | "c06.read" =>
+    let d ← docOfJson (← field j "doc")
+    .ok (resToJson chartToJson (read d))
+  | "c06.write" =>
+    let c ← chartOfJson (← field j "chart")
+    .ok (resToJson docToJson (write c))
+  | "c06.write_read" =>
+    let c ← chartOfJson (← field j "chart")
+    .ok (resToJson chartToJson (write c >>= read))
+  -- specification
+  | "c06.denote" =>
+    let d ← docOfJson (← field j "doc")
+    .ok (resToJson chartToJson (Spec.denote d))
+  | "c06.quantize" =>
+    let c ← chartOfJson (← field j "chart")
+    .ok (okJson (chartToJson (Spec.quantize c)))
+  | "c06.close_chart" =>
+    let a ← chartOfJson (← field j "a")
+    let b ← chartOfJson (← field j "b")
+    .ok (okJson (obj [("close", Json.bool (Spec.closeChart a b)), ("why", listToJson Json.str (Spec.closeWhy a b))]))
+  | "c06.doc_allowed" =>
+    let d ← docOfJson (← field j "doc")
+    .ok (okJson (obj [("allowed", Json.bool (Spec.docAllowed d)),
+                      ("offending", listToJson (fun p => Json.arr #[Json.str p.1, Json.str p.2]) (Spec.offending d))]))
+  | "c06.dom_doc" =>
+    let d ← docOfJson (← field j "doc")
+    .ok (okJson (obj [("keysounds_declared", Json.bool (Spec.keySoundsDeclared d)),
+                      ("lanes_declared", Json.bool (Spec.lanesDeclared d)),
+                      ("objs_declared", Json.bool (Spec.objsDeclared d))]))
+  | "c06.dom_chart" =>
+    let c ← chartOfJson (← field j "chart")
+    .ok (okJson (obj [("ks_lists", Json.bool (Spec.ksLists c)), ("meta_typed", Json.bool (Spec.metaTyped c.info)),
+                      ("tags_ok", Json.bool (Spec.tagsOk c.info)), ("meta_keys_ok", Json.bool (Spec.metaKeysOk c.info))]))
+  | "c06.tags" =>
+    let s ← getStr j "s"
+    .ok (okJson (listToJson Json.str (tagsOf s)))
   | _ => .error s!"unknown op {op}"
 
 end Reamber.C06
